@@ -317,14 +317,14 @@ func genRRSIG(r *vlib.R, now int64) (string, string) {
 			b.tag("signed-by-other-zone-key")
 		case 7:
 			s.sig.pre["labels"] = itoa(s.sig.labels)
-			if r.Bool() || s.sig.labels == 0 {
+			if r.Bool() || s.sig.labels <= 1 {
 				s.sig.labels++
 			} else {
 				s.sig.labels--
 			}
 			b.tag("labels-rewritten")
 		case 8:
-			if s.sig.labels > 0 {
+			if s.sig.labels > 1 {
 				s.sig.labels-- // re-signed as if expanded from a wildcard one level up
 				b.tag("labels-resigned")
 			}
@@ -394,7 +394,7 @@ func genRRSIG(r *vlib.R, now int64) (string, string) {
 			b.key(other, signer.flags, signer.pool) // same rdata, other owner: same tag
 			b.tag("clone-other-owner")
 		case 23:
-			if len(s.rrs) >= 2 {
+			if len(s.rrs) >= 2 && spelled(tokName(s.rrs[1].owner), 1) != tokName(s.rrs[1].owner) {
 				s.rrs[1].spell = 1
 				b.tag("mixed-spelling")
 			}
